@@ -41,6 +41,9 @@ pub const EDGES: &[Edge] = &[
     Edge { tag: "TagKeyEmpty", src: "#[typeshare]\n#[serde(tag = \"\", content = \"\")]\npub enum EdgeE { A(String), B }\n" },
     Edge { tag: "TagKeyNonAscii", src: "#[typeshare]\n#[serde(tag = \"\u{e9}t\u{e9}\", content = \"\u{5b57}\")]\npub enum EdgeE { A(String), B }\n" },
     Edge { tag: "UseBareCrate", src: "use foo;\nuse bar as baz;\nuse ::qux;\n#[typeshare]\npub struct EdgeE { pub f: u8 }\n" },
+    Edge { tag: "GlobImportOfForeignCrate", src: "use some_foreign_crate::*;\nuse another::deep::module::*;\nuse third::{inner::*, Named};\n#[typeshare]\npub struct EdgeE { pub f: u8, pub g: Named }\n" },
+    Edge { tag: "GlobImportRelative", src: "use super::*;\nuse crate::*;\nuse self::*;\nuse crate::nowhere::*;\n#[typeshare]\npub struct EdgeE { pub f: u8 }\n" },
+    Edge { tag: "UseOddForms", src: "use a::b::{self, c::{self as d, E}};\nuse ::{f, g::H};\npub use i::J as _;\nextern crate k as l;\n#[typeshare]\npub struct EdgeE { pub f: u8 }\n" },
     Edge { tag: "UseOddTrees", src: "use {a::B, c::{self, D}};\nuse self::x::Y;\nuse super::*;\nuse crate::{};\n#[typeshare]\npub struct EdgeE { pub f: Y, pub g: c::D }\n" },
     Edge { tag: "Const", src: "#[typeshare]\npub const EDGE_CONST: u32 = 7;\n" },
     Edge { tag: "Const/odd-values", src: "#[typeshare]\npub const EDGE_A: i32 = -1;\n#[typeshare]\npub const EDGE_B: u32 = 0xff;\n#[typeshare]\npub const EDGE_C: u32 = 1_000u32;\n#[typeshare]\npub const EDGE_D: u32 = (3);\n" },
@@ -138,6 +141,9 @@ pub fn panic_site(loc: &str) -> String {
 pub struct C07;
 impl SubCheck for C07 {
     type Case = Case;
+    fn crash_guard(&self) -> bool {
+        true
+    }
     fn name(&self) -> &'static str {
         "c07-inprocess"
     }
